@@ -560,6 +560,10 @@ class SpanTracker:
         tid = self._tid()
         if tid not in self.open:
             self.open[tid] = self.sim.event("span-open")
+        cb = getattr(self, "on_hook_eval", None)
+        if cb is not None:
+            with self.sim.atomic():
+                cb(tid)
 
     def stop_begin(self):
         tid = self._tid()
